@@ -7,5 +7,7 @@ TECH = {
  "C01": "SSA edge-cut guard obligations + message-field provenance + table agreement (static analysis)",
  "C02": "SSA must-pass-through / pairing obligations on the call state machine + reply provenance + who-may-answer (static analysis)",
  "C05": "SSA must-pass-through clean-up obligations, type-driven table/delete completeness over the static call graph, close-after-removal ordering (static analysis)",
+ "C12": "freshness/aliasing analysis of dict writes + disclosure guard obligations + whole-value use audit of session details (static analysis)",
+ "C13": "SSA edge-cut guard and must-pass-through obligations on the cancel state machine and timeout arms (static analysis)",
  "C03": "SSA edge-cut guard obligations, switch/case-set agreement, INVOCATION provenance (static analysis)",
 }
